@@ -177,7 +177,7 @@ def _decide(res, src, dst, dst_asts, A, B, inputs, V, vis_exact, vname, costs, o
                 return []
         if m.get("kind") == "dom_negated_false":
             try:
-                return [{"kind": "all_false", "sigs": sorted(_au.antimonotone_domain_sigs(_au.parse(dst), m["prefix"]))}]
+                return [{"kind": "all_false", "sigs": sorted(_au.antimonotone_domain_sigs(_au.parse(dst), m["prefix"], _au.parse(src)))}]
             except RuntimeError:
                 return []
         rs = [_re.compile(r) for r in m["nonempty_result_preds"]]
@@ -222,7 +222,7 @@ def _decide(res, src, dst, dst_asts, A, B, inputs, V, vis_exact, vname, costs, o
                 if cmp_exact["status"] == "differ":
                     hit = None
                     for e in kf_classes:
-                        if e["id"] not in known and class_signature_holds(e, dst, facts(inst) + " " + extra, consts):
+                        if e["id"] not in known and class_signature_holds(e, dst, facts(inst) + " " + extra, consts, src):
                             hit = e
                             break
                     if hit is not None:
@@ -239,7 +239,7 @@ def _decide(res, src, dst, dst_asts, A, B, inputs, V, vis_exact, vname, costs, o
             if cmpres["status"] == "differ":
                 hit = None
                 for e in kf_classes:
-                    if e["id"] not in known and class_signature_holds(e, dst, facts(inst) + " " + extra, consts):
+                    if e["id"] not in known and class_signature_holds(e, dst, facts(inst) + " " + extra, consts, src):
                         hit = e
                         break
                 if hit is not None:
@@ -289,7 +289,7 @@ def _decide(res, src, dst, dst_asts, A, B, inputs, V, vis_exact, vname, costs, o
     return ("held", "")
 
 
-def class_signature_holds(entry, dst, instance, consts):
+def class_signature_holds(entry, dst, instance, consts, src=None):
     """does the replayed counterexample belong to the instance class of a class-identified known finding?
     nonempty    : some predicate of the result whose name matches a regex has no ground atom for this instance
     dom_superset: in some answer set of result+instance an atom q(t) is true while <prefix>q(t) is false"""
@@ -320,7 +320,7 @@ def class_signature_holds(entry, dst, instance, consts):
             return False
         return any(not any(True for _ in ctl.symbolic_atoms.by_signature(name, ar)) for name, ar in sigs)
     if m.get("kind") == "dom_negated_false":
-        sigs = astutil.antimonotone_domain_sigs(astutil.parse(dst), m["prefix"])
+        sigs = astutil.antimonotone_domain_sigs(astutil.parse(dst), m["prefix"], astutil.parse(src) if src else None)
         if not sigs:
             return False
         ctl = clingo.Control(args, logger=lambda c, m_: None)
